@@ -75,7 +75,7 @@ PROPS = {
         'design_ref': 'DESIGN.md §6 C09',
     },
     'C10': {
-        'verus': ['program_lines', 'program_state'],
+        'verus': ['program_lines', 'program_state', 'interp_api'],
         'kani': ['run_command'],
         'level': 'proof',
         'design_ref': 'DESIGN.md §6 C10',
@@ -130,7 +130,7 @@ UNDECIDED = {
     'C19': ["the page script (abasic-web/ts/main.ts) is TypeScript: its protocol is an assumption, transliterated in L_page_protocol; the start-up loader (start_evaluating per line with no error check in between) violates the adapter's precondition when a line fails - outside this check's reach", "Interpreter::start_evaluating / evaluate_impl contract is assumed (AsRef<str>, Tokenizer)", "output record text (Display) and error text + caret: fmt, undecided"],
     'C07': ["expression evaluation (user-defined function calls included) is proved to hand the call stack back as it found it, on success and on failure (unit expressions, after normalisation N9 of the argument loop's `.enumerate()`); the statement evaluator sees the expression evaluator through an assumed contract that does not yet repeat this clause", "transparency itself (same output / input requests / outcome as the uninterrupted run) is concluded from the per-call facts - break records the location and keeps stack, loops, DATA cursor, functions; CONT restores exactly that; idle transitions keep pending reply and output - not proved as a statement about two runs", "that STOP and the host break both reach Program::break_at_current_location (statement.rs:28, interpreter.rs:115) is read, not proved"],
     'C09': ["the expression evaluator is an assumed contract (a successful expression only moves the cursor forward on its line); user-defined function calls inside expressions are therefore outside the per-call work bound, as the property itself allows", "READ's loop over its variable list and PRINT's loop are not given a termination measure (partial correctness)"],
-    'C10': ["the RUN arm of maybe_process_command is outside Verus (fmt in sibling arms); Kani checks it for an empty stored program only (pending reply, state, tracing flag); fresh Variables/Arrays are two assignments of Default::default(), read not proved"],
+    'C10': ["the RUN arm of Interpreter::maybe_process_command is proved (for every stored program) to hand its first statement a state with no pending reply, no variables, no arrays, no breakpoint / frames / loops / functions / DATA cursor and the stored lines untouched; that the derived Default of Variables / Arrays is the empty map is assumed; what the run then does is the business of the other properties (this is not a comparison of two runs)", "Kani additionally executes the RUN arm for an empty stored program (bounded)"],
     'C11': ["end_loop returning NEXT WITHOUT FOR on a missing loop; next_data_element rebuilding the cursor (closure) - read, not proved"],
     'C16': ["end_loop re-push (f64 arithmetic) - read, not proved", "ValueArray / DimArray internals enter the Arrays wrapper as assumed contracts, themselves checked by Kani (bounded)"],
     'C17': ["the relational claim (identical output/inputs/errors/final state in all four configurations) is concluded from three facts, not proved as a 2-safety property: the switches are read at exactly the censused sites, each site only appends Warning / Trace records, and no statement or expression writes a switch", "that the trace records name exactly the lines execution passes through, and that a warning is issued exactly for never-assigned variables / missing arrays, are not decided (the guard conditions are read, not specified)", "PRINT and user-defined function calls are assumed contracts (they promise not to write the switches)", "TRACE / NOTRACE commands live in maybe_process_command (outside Verus; census only)"],
